@@ -1260,22 +1260,32 @@ class PhasedVcfWriter(VcfAugmenter):
                     )
                     self._set_phasing_tags(call, components[pos], phases[pos], haploid_component)
                 elif self.tag in record.format:
-                    # Unphased: clear a value left over from the input or set for another sample.
-                    # (Assigning None to a String tag that no call of the record carries makes
-                    # htslib emit a NUL byte, which renders the output unreadable.)
-                    call[self.tag] = None
+                    # Unphased: clear a value left over from the input or set for another sample
+                    self._clear_tag(call, self.tag)
             prev_pos = pos
         return genotype_changes
 
+    @staticmethod
+    def _clear_tag(call: VariantRecordSample, tag: str):
+        """Set a phasing tag to missing. When all String values of a record are None, htslib
+        emits NUL bytes that render the output unreadable, so use an explicit '.' for HP."""
+        call[tag] = "." if tag == "HP" else None
+
     def _remove_existing_phasing(self, record: VariantRecord, samples: Iterable[str]):
-        if self.tag == "PS":
-            for sample in samples:
-                call = record.samples[sample]
-                if "GT" not in call:
-                    continue
-                call.phased = False
-                if call["GT"] is not None and all(allele is not None for allele in call["GT"]):
-                    call["GT"] = sorted(call["GT"])
+        # Phase information of either encoding must not survive in the calls that are
+        # re-phased: a leftover PS/"|" next to a new HP (or vice versa) mixes old and new
+        # phase, and the HP encoding refers to the order of the alleles in an unphased,
+        # sorted GT.
+        for sample in samples:
+            call = record.samples[sample]
+            for tag in ("PS", "HP"):
+                if tag in record.format:
+                    self._clear_tag(call, tag)
+            if "GT" not in call:
+                continue
+            call.phased = False
+            if call["GT"] is not None and all(allele is not None for allele in call["GT"]):
+                call["GT"] = sorted(call["GT"])
 
 
 def genotype_code(gt: Optional[Tuple[Optional[int], ...]]) -> Genotype:
